@@ -603,3 +603,122 @@ Proof.
   change (s_ "c:") with [99; 58].
   rewrite !(strip_prefix_bare _ s Hb). reflexivity.
 Qed.
+
+(* ================================================================== nested lists and dicts *)
+(* ---- dict_of on a list whose keys are pairwise distinct is that list ---- *)
+Lemma dict_set_fresh {A} k (v : A) m : ~ In k (map fst m) -> dict_set k v m = (m ++ [(k, v)])%list.
+Proof.
+  induction m as [|[y w] m IH]; cbn [dict_set map fst In List.app]; intro H; [reflexivity|].
+  destruct (str_eqb_spec y k) as [E|E]; [exfalso; apply H; left; exact E|]. rewrite IH; [reflexivity|]. intro Hin. apply H. right. exact Hin.
+Qed.
+Lemma dict_of_nodup_acc {A} : forall (l acc : list (str * A)), NoDup (map fst (acc ++ l)) ->
+  fold_left (fun m kv => dict_set (fst kv) (snd kv) m) l acc = (acc ++ l)%list.
+Proof.
+  induction l as [|[k v] l IH]; intros acc H; cbn [fold_left]; [rewrite app_nil_r; reflexivity|].
+  cbn [fst snd]. rewrite dict_set_fresh.
+  - rewrite IH; rewrite <- app_assoc; [reflexivity|exact H].
+  - rewrite map_app in H. cbn [map fst] in H. apply NoDup_remove_2 in H. intro Hin. apply H. apply in_or_app. left. exact Hin.
+Qed.
+Lemma dict_of_nodup {A} (l : list (str * A)) : NoDup (map fst l) -> dict_of l = l.
+Proof. intro H. unfold dict_of. apply (dict_of_nodup_acc l []). exact H. Qed.
+
+(* ---- round trip of nested lists and dicts over leaves that round-trip ---- *)
+Definition leaf_rt (v v' : hval) : Prop := forall f g j, jdump (S f) false v = Ok j -> jparse (S g) false j = Ok v'.
+Definition is_container (v : hval) : bool := match v with VList _ | VDict _ | VGrid _ _ _ _ => true | _ => false end.
+Definition grid_like {A} (d : list (str * A)) : bool :=
+  match assoc (s_ "meta") d, assoc (s_ "cols") d, assoc (s_ "rows") d with Some _, Some _, Some _ => true | _, _, _ => false end.
+
+Fixpoint rtn (n : nat) (v v' : hval) : Prop :=
+  match n with
+  | O => False
+  | S n' =>
+      (is_container v = false /\ leaf_rt v v') \/
+      (exists l l', v = VList l /\ v' = VList l' /\ Forall2 (rtn n') l l') \/
+      (exists d d', v = VDict d /\ v' = VDict d' /\ NoDup (map fst d) /\ grid_like d = false /\
+                    Forall2 (fun a b => fst a = fst b /\ rtn n' (snd a) (snd b)) d d')
+  end.
+
+Lemma assoc_keys {A B} (d : list (str * A)) (d' : list (str * B)) k :
+  map fst d = map fst d' -> (match assoc k d with Some _ => true | None => false end) = (match assoc k d' with Some _ => true | None => false end).
+Proof.
+  revert d'. induction d as [|[y w] d IH]; intros [|[y' w'] d'] H; cbn [map fst] in H; try discriminate; [reflexivity|].
+  inversion H; subst. cbn [assoc]. destruct (str_eqb y' k); [reflexivity|apply IH; assumption].
+Qed.
+Lemma grid_like_keys {A B} (d : list (str * A)) (d' : list (str * B)) : map fst d = map fst d' -> grid_like d = grid_like d'.
+Proof.
+  intro H. unfold grid_like.
+  pose proof (assoc_keys d d' (s_ "meta") H) as H1. pose proof (assoc_keys d d' (s_ "cols") H) as H2. pose proof (assoc_keys d d' (s_ "rows") H) as H3.
+  destruct (assoc (s_ "meta") d), (assoc (s_ "meta") d'); try discriminate;
+  destruct (assoc (s_ "cols") d), (assoc (s_ "cols") d'); try discriminate;
+  destruct (assoc (s_ "rows") d), (assoc (s_ "rows") d'); try discriminate; reflexivity.
+Qed.
+
+Theorem nested_roundtrip : forall n v v', rtn n v v' -> forall f j, jdump f false v = Ok j -> jparse f false j = Ok v'.
+Proof.
+  induction n as [|n IH]; intros v v' H f j; cbn [rtn] in H; [contradiction|].
+  destruct H as [[Hc Hl]|[[l [l' [E [E' Hf]]]]|[d [d' [E [E' [ND [Hg Hf]]]]]]]].
+  - destruct f as [|f]; [cbn [jdump]; discriminate|]. intro Hd. exact (Hl f f j Hd).
+  - subst. destruct f as [|f]; [cbn [jdump]; discriminate|]. cbn [jdump].
+    match goal with |- bind ?m _ = _ -> _ => destruct m as [r|e] eqn:Er end; cbn [bind]; [|discriminate].
+    intro Q; inversion Q; subst j. clear Q. cbn [jparse].
+    assert (G : (fix go (l0 : list json) : res (list hval) := match l0 with [] => Ok [] | x :: l'0 => do v <- jparse f false x; do r0 <- go l'0; Ok (v :: r0) end) r = Ok l').
+    { revert r Er. induction Hf as [|x y l l' Hxy Hl IHl]; intros r Er.
+      - inversion Er; reflexivity.
+      - destruct (jdump f false x) as [jx|e] eqn:Ex; cbn [bind] in Er; [|discriminate].
+        match type of Er with bind ?m _ = _ => destruct m as [r0|e] eqn:Er0 end; cbn [bind] in Er; [|discriminate].
+        inversion Er; subst r. rewrite (IH x y Hxy f jx Ex). cbn [bind]. rewrite (IHl r0 eq_refl). reflexivity. }
+    rewrite G. reflexivity.
+  - subst. destruct f as [|f]; [cbn [jdump]; discriminate|]. cbn [jdump].
+    match goal with |- bind ?m _ = _ -> _ => destruct m as [r|e] eqn:Er end; cbn [bind]; [|discriminate].
+    intro Q; inversion Q; subst j. clear Q.
+    assert (G : map fst r = map fst d /\
+                (fix go (l0 : list (str * json)) : res (list (str * hval)) := match l0 with [] => Ok [] | (k, x) :: l'0 => do v <- jparse f false x; do r0 <- go l'0; Ok ((k, v) :: r0) end) r = Ok d').
+    { revert r Er. clear ND Hg. induction Hf as [|[k x] [k' y] l l' [Hk Hxy] Hl IHl]; intros r Er.
+      - inversion Er; split; reflexivity.
+      - cbn [fst snd] in *. subst k'. destruct (jdump f false x) as [jx|e] eqn:Ex; cbn [bind] in Er; [|discriminate].
+        match type of Er with bind ?m _ = _ => destruct m as [r0|e] eqn:Er0 end; cbn [bind] in Er; [|discriminate].
+        inversion Er; subst r. destruct (IHl r0 eq_refl) as [K1 K2]. split; [cbn [map fst]; rewrite K1; reflexivity|].
+        rewrite (IH x y Hxy f jx Ex). cbn [bind]. rewrite K2. reflexivity. }
+    destruct G as [K G]. assert (NDr : NoDup (map fst r)) by (rewrite K; exact ND).
+    rewrite (dict_of_nodup r NDr). cbn [jparse].
+    assert (Hgr : is_grid_obj r = false).
+    { unfold is_grid_obj. change (grid_like r = false). rewrite (grid_like_keys r d K). exact Hg. }
+    rewrite Hgr, G. cbn [bind]. f_equal. f_equal. apply dict_of_nodup.
+    assert (K' : map fst d' = map fst d).
+    { clear -Hf. induction Hf as [|a b l l' [Hk _] Hl IHl]; [reflexivity|]. cbn [map]. rewrite IHl, Hk. reflexivity. }
+    rewrite K'. exact ND.
+Qed.
+
+(* ---- leaves ---- *)
+Ltac leaf := intros f g j; cbn [jdump]; intro Q; inversion Q; subst j; cbn [jparse].
+Lemma leaf_str s : leaf_rt (VStr s) (VStr s). Proof. leaf. apply rt_str. Qed.
+Lemma leaf_uri s : leaf_rt (VUri s) (VUri s). Proof. leaf. apply rt_uri. Qed.
+Lemma leaf_bin s : leaf_rt (VBin s) (VBin s). Proof. leaf. apply rt_bin. Qed.
+Lemma leaf_marker : leaf_rt VMarker VMarker. Proof. leaf. apply rt_marker. Qed.
+Lemma leaf_na : leaf_rt VNA VNA. Proof. leaf. exact (proj1 rt_na). Qed.
+Lemma leaf_remove : leaf_rt VRemove VRemove. Proof. leaf. exact (proj2 (rt_remove false)). Qed.
+Lemma leaf_null : leaf_rt VNull VNull. Proof. leaf. reflexivity. Qed.
+Lemma leaf_bool b : leaf_rt (VBool b) (VBool b). Proof. leaf. reflexivity. Qed.
+
+Fixpoint plain (n : nat) (v : hval) : Prop :=
+  match n with
+  | O => False
+  | S n' =>
+      match v with
+      | VStr _ | VUri _ | VBin _ | VMarker | VNull | VBool _ | VNA | VRemove => True
+      | VList l => Forall (plain n') l
+      | VDict d => NoDup (map fst d) /\ grid_like d = false /\ Forall (fun kv => plain n' (snd kv)) d
+      | _ => False
+      end
+  end.
+Lemma plain_rtn : forall n v, plain n v -> rtn n v v.
+Proof.
+  induction n as [|n IH]; intros v H; cbn [plain] in H; [contradiction|]. cbn [rtn].
+  destruct v; try contradiction;
+    try (left; split; [reflexivity|first [apply leaf_str|apply leaf_uri|apply leaf_bin|apply leaf_marker|apply leaf_na|apply leaf_remove|apply leaf_null|apply leaf_bool]]).
+  - right. left. exists l, l. split; [reflexivity|]. split; [reflexivity|]. induction H as [|x l Hx Hl IHl]; constructor; auto.
+  - right. right. destruct H as [ND [Hg Hf]]. exists d, d. split; [reflexivity|]. split; [reflexivity|]. split; [exact ND|]. split; [exact Hg|].
+    clear ND Hg. induction Hf as [|x l Hx Hl IHl]; constructor; auto.
+Qed.
+Theorem plain_roundtrip n v f j : plain n v -> jdump f false v = Ok j -> jparse f false j = Ok v.
+Proof. intros H. apply (nested_roundtrip n). apply plain_rtn. exact H. Qed.
